@@ -30,6 +30,7 @@ def lookupHandler (fam : String) : Option Handler :=
   | "quire" => some quireHandler
   | "pconv" => some pconvHandler
   | "thr" => some thrHandler
+  | "hist" => some histHandler
   | "exc" => some excHandler
   | "text" => some textHandler
   | "f64" => some f64Handler
